@@ -277,4 +277,24 @@ PROPS = {
                              "handles_reissued", "ct_style:0", "ct_style:1", "ct_style:2", "ct_style:3", "ct_stale:0", "ct_stale:2", "ct_max:1024"],
         "assumptions": ASSUME_COMMON,
     },
+    "C06": {
+        "rule": ("7 of 8 cases: an error-free scripted history (30-90 steps quick, up to 200 thorough) over 2-4 forests with random "
+                 "optimistic/pessimistic/never deletion, storage and memory-manager policies and random compute-table settings: edge "
+                 "copies, assignments incl. self-assignment, releases, operations across forests, cache clears, stale removal, churn, "
+                 "file round trips; after EVERY step M2 recounts, for every active node, child pointers + registered dd_edges (guarded "
+                 "hook) + unpacked nodes under construction and requires equality with the stored incoming count; M1 requires "
+                 "every child of a live node to be live; M3 cache counts; every 4 steps all held edges are re-evaluated; M5 asserts "
+                 "handles are recycled / re-issued only with zero counts and counters never underflow; at the end all edges are "
+                 "released, caches cleared and getCurrentNumNodes() must be 0 in every forest.  1 of 8 cases: counter-width and "
+                 "growth cases -- 300 / 70000 copies of one dd_edge (8->16->32 bit), 300 parent nodes of one node, 300 cache entries on "
+                 "one node, waves of thousands of nodes -- audited at each plateau and during release in random order.  "
+                 "non-trivial = more than 50 incoming counts compared (or a width case); distinct = hash of the script"),
+        "passes": {
+            "quick": [P("main", "asan", 640)],
+            "thorough": [P("main", "asan", 12000)],
+        },
+        "require_counters": ["refcounts_checked", "leak_checks", "width_cases", "crossed_8_to_16_bit", "crossed_16_to_32_bit", "cachecount_width_cases",
+                             "handles_reissued", "script_assignments", "script_self_assignments", "script_releases", "deletion:pessimistic", "deletion:optimistic", "deletion:never"],
+        "assumptions": ASSUME_COMMON + ["histories contain no call that raises an error (C06 excludes error paths)"],
+    },
 }
